@@ -91,7 +91,7 @@ def make_setup(case):
     else:
         raise Inconclusive("generator could not find a layout with a block on every rank")
     T = rnd.randint(4, 8)
-    pk, pres = G.rand_presence(rnd, len(shapes), T, kind=rnd.choice(["all", "all", "never_one", "toggle", "random", "bursts", "all_absent_steps"]))
+    pk, pres = G.rand_presence(rnd, len(shapes), T, kind=rnd.choice(["all", "all", "never_one", "toggle", "random", "bursts", "all_absent_steps", "rotate"]))
     exact = (not replicated) or (COMM[comm] == "float32" and pdt == "float32")
     pdts = None
     if pdt == "float32" and (force_mixed or rnd.random() < 0.3):
